@@ -193,9 +193,52 @@ def h_pair(ctx, shape1, shape2, s1, s2, caching, third=False):
     return (a[0], b2[0])
 
 
+def h_abb(ctx, shape_a, shape_b, s1, s2, caching):
+    """Histories of three: a first UPDATE A (decoded, rendered), then B, then B' of the same shape as B with independent
+    symbolic bytes — so "B' has exactly the attribute bytes of B" is a solver branch inside the cache test, and B may be
+    malformed (treat-as-withdraw / session reset) or well formed.  B' decoded after A and B must equal B' decoded alone.
+    This is the history a one-entry cache needs to go wrong: the key moves to B while the value still belongs to A."""
+    n1 = S.session('in', **SESSIONS[s1])
+    n2 = S.session('in', **SESSIONS[s2])
+
+    def build(shape, pfx, sess):
+        if shape == 'origin':
+            return SHAPES[shape](Pfx(ctx, pfx), asn4=sess != 'asn2')
+        return SHAPES[shape](Pfx(ctx, pfx))
+    ma = K.mk(ctx, build(shape_a, 'a.', s1))
+    mb = K.mk(ctx, build(shape_b, 'b.', s2))
+    mc = K.mk(ctx, build(shape_b, 'c.', s2))
+    Attribute.caching = caching
+    reset_all()
+    alone, _ = decode(mc, n2)
+    reset_all()
+    ra, msga = decode(ma, n1)
+    render(msga, n1)
+    rb, msgb = decode(mb, n2)
+    render(msgb, n2)
+    rc, _ = decode(mc, n2)
+    if alone[0] == 'update' and any(c >= 0xFFF0 for c, *_ in alone[3]):
+        ctx.cover('third-is-treat-as-withdraw')
+    elif alone[0] == 'update':
+        ctx.cover('third-decodes')
+    ctx.note('class', '%s|%s|%s' % (ra[0], rb[0], alone[0]))
+    ctx.check('third-decode-independent-of-history', sx_eq(alone, rc),
+              sig='C19:%s>%s>%s:%s>%s:history-dependent-decode' % (shape_a, shape_b, shape_b, s1, s2),
+              info={'alone': alone, 'after-a-and-b': rc, 'a': ra, 'b': rb, 'caching': caching})
+    Attribute.caching = False
+    return (ra[0], rb[0], alone[0], rc[0])
+
+
 def units(tier):
     us = []
     th = tier == 'thorough'
+    for (pa, pb) in ([('comm', 'origin'), ('aspath', 'origin')] + ([('origin', 'origin'), ('comm', 'comm')] if th else [])):
+        for (s1, s2) in ([('asn4', 'asn4')] + ([('asn2', 'asn4'), ('asn4', 'asn2')] if th else [])):
+            for caching in ((False, True) if th else (True,)):
+                us.append(Unit('abb/%s-%s/%s-%s/%s' % (pa, pb, s1, s2, 'cache' if caching else 'nocache'),
+                               lambda ctx, pa=pa, pb=pb, s1=s1, s2=s2, c=caching: h_abb(ctx, pa, pb, s1, s2, c),
+                               must_cover=('third-decodes', 'third-is-treat-as-withdraw') if pb == 'origin' else ('third-decodes',),
+                               hash_const=True, reset=reset_all, weight=20, max_seconds=600))
     for (p1, p2) in PAIRS:
         for (s1, s2) in SESSION_PAIRS:
             if p1 != p2 and (s1, s2) not in (('asn4', 'asn4'), ('asn4', 'asn2')) and not th:
